@@ -184,6 +184,8 @@ type connEnd struct {
 	in, out       *half
 	local, remote simAddr
 	closeOnce     sync.Once
+	closedAt      time.Duration // virtual instant at which this end was closed by its owner
+	isClosed      bool
 }
 
 func (e *connEnd) Read(b []byte) (int, error) {
@@ -193,6 +195,7 @@ func (e *connEnd) Read(b []byte) (int, error) {
 func (e *connEnd) Write(b []byte) (int, error) { return e.out.write(b) }
 func (e *connEnd) Close() error {
 	e.closeOnce.Do(func() {
+		e.closedAt, e.isClosed = simrt.Now(), true
 		e.out.closeWrite()
 		e.in.fail(net.ErrClosed, nil)
 		e.out.fail(nil, net.ErrClosed)
